@@ -279,14 +279,27 @@ impl Ctx {
 }
 
 /// Run `n_shards` closures on threads (each with its own forked context and stream number), merge.
+/// Run a piece of a monitor; a panic that escapes it is attributed by its location: inside the harness sources -> the run is inconclusive
+/// (a bug of the monitor); anywhere else (the crate under test, called with an input the monitor holds for valid, outside a `catch`) -> a
+/// violation of the property being judged. The rest of that piece of work is lost either way.
+pub fn run_guarded<F: FnOnce(&mut Ctx)>(ctx: &mut Ctx, f: F) {
+  let r = panic::catch_unwind(panic::AssertUnwindSafe(|| f(ctx)));
+  if r.is_err() {
+    let p = LAST_PANIC.with(|c| c.borrow().clone());
+    let loc = panic_loc(&p).to_string();
+    if loc.contains("/harness/src/") || loc.contains("harness/src/") || loc.is_empty() { ctx.inconclusive(&format!("harness panic: {}", p)); }
+    else { ctx.violation("crate-panics-on-an-input-the-monitor-holds-for-valid(unguarded-call)", Case::new("unguarded").s("at", &loc), p); }
+  }
+}
+
 pub fn run_sharded<F>(ctx: &mut Ctx, n_shards: usize, f: F)
   where F: Fn(&mut Ctx, usize) + Sync {
-  if n_shards <= 1 { f(ctx, 0); return; }
+  if n_shards <= 1 { run_guarded(ctx, |c| f(c, 0)); return; }
   let results: Vec<Ctx> = std::thread::scope(|s| {
     let hs: Vec<_> = (0..n_shards).map(|k| {
       let mut c = ctx.fork();
       let fr = &f;
-      std::thread::Builder::new().stack_size(256 << 20).spawn_scoped(s, move || { fr(&mut c, k); c }).unwrap()
+      std::thread::Builder::new().stack_size(256 << 20).spawn_scoped(s, move || { run_guarded(&mut c, |c| fr(c, k)); c }).unwrap()
     }).collect();
     hs.into_iter().map(|h| h.join().expect("shard thread died")).collect()
   });
